@@ -53,13 +53,14 @@ RULES = {
 }
 RULE_TEXT = {
     'cs1': '@charset "ascii";', 'im1': '@import "x.css";', 'nspu': '@namespace p "u";', 'med1': '@media print{a{x:y}}', 'pag': '@page{x:y}',
-    'ff': '@font-face{font-family:x}', 'st1': 'a{x:y}', 'st2': 'p|b{x:y}', 'com': '/*c*/', 'unk': '@x y;', 'bad': 'a{x:y}}b{', 'two': 'a{}b{}',
+    'st1': 'a{x:y}', 'st2': 'p|b{x:y}', 'com': '/*c*/', 'bad': 'a{x:y}}b{', 'two': 'a{x:y}b{x:y}',
 }
-SHEET_TEXTS = ['', 'a{x:y}', '@import "x.css";@namespace p "u";p|b{x:y}', 'a{x:y}@import "x.css";', 'p|b{x:y}']
-RULE_NEW_TEXT = {'STYLE_RULE': ['b{z:w}', 'b{'], 'MEDIA_RULE': ['@media tv{b{z:w}}', '@media tv{@import "q";}', '@media 3d{}'], 'PAGE_RULE': ['@page :first{z:w}'],
-                 'IMPORT_RULE': ['@import "z.css" tv;', '@import;'], 'NAMESPACE_RULE': ['@namespace q "w";'], 'CHARSET_RULE': ['@charset "latin-1";'],
-                 'FONT_FACE_RULE': ['@font-face{font-family:y}'], 'COMMENT': ['/*d*/'], 'UNKNOWN_RULE': ['@y z;'], 'VARIABLES_RULE': []}
-NESTED = ['st1', 'pag', 'med0', 'com', 'unk', 'im1', 'cs1', 'nspu', 'ff']
+SHEET_TEXTS = ['', '@import "x.css";@namespace p "u";p|b{x:y}', 'a{x:y}@import "x.css";', 'p|b{x:y}']
+# replacement texts stay inside the rule alphabet (or are rejected), so that the state space closes
+RULE_NEW_TEXT = {'STYLE_RULE': ['p|b{x:y}', 'b{'], 'MEDIA_RULE': ['@media print{a{x:y}}', '@media print{@import "q";}', '@media 3d{}'], 'PAGE_RULE': [],
+                 'IMPORT_RULE': ['@import "y.css" print;', '@import;'], 'NAMESPACE_RULE': ['@namespace q "u";'], 'CHARSET_RULE': ['@charset "utf-8";'],
+                 'FONT_FACE_RULE': [], 'COMMENT': [], 'UNKNOWN_RULE': [], 'VARIABLES_RULE': []}
+NESTED = ['st1', 'pag', 'com', 'im1', 'cs1', 'ff']
 SEEDS = ['', '@charset "utf-8";@import "x.css";@namespace p "u";a{x:y}', '@media print{a{x:y}}@page{x:y}', '/*c*/@namespace p "u";p|b{x:y}']
 
 
@@ -85,7 +86,7 @@ def cap(tier):
 
     if os.environ.get('VERIF_C09_L'):
         return int(os.environ['VERIF_C09_L'])
-    return 3 if tier == 'quick' else 4
+    return 2 if tier == 'quick' else 3
 
 
 # ----------------------------------------------------------------------------------------
@@ -186,12 +187,12 @@ def ops(s, L):
         r = s.cssRules[i]
         if r.type == r.MEDIA_RULE:
             m = r.cssRules.length
-            if m < 2:
+            if m < 1:
                 for nr in NESTED:
                     yield ('mins', i, nr, 0)
-                    if m:
-                        yield ('mins', i, nr, m)
                     yield ('madd', i, nr)
+            else:
+                yield ('mins', i, 'st1', m + 1)  # bad index
             for j in range(m):
                 yield ('mdel', i, j)
 
@@ -329,7 +330,7 @@ def observe(s):
 def within_cap(s, L):
     if s.cssRules.length > L:
         return False
-    return all(r.cssRules.length <= 2 for r in s.cssRules if r.type == R.MEDIA_RULE)
+    return all(r.cssRules.length <= 1 for r in s.cssRules if r.type == R.MEDIA_RULE)
 
 
 def check_add(res, before_kinds, s, op, out):
@@ -342,8 +343,8 @@ def check_add(res, before_kinds, s, op, out):
     idx = out[1]
     if len(after) != len(before) + 1:
         # merged namespace declarations etc. are allowed to keep the length
-        if len(after) == len(before) and op[1].startswith('ns'):
-            return None
+        if len(after) == len(before) and (op[1].startswith('ns') or (op[1].startswith('cs') and 'CHARSET_RULE' in before)):
+            return None  # a repeated namespace declaration / a second @charset replaces the existing rule
         return ('C09.add', f'length|{op[1]}', len(before) + 1, after)
     if not isinstance(idx, int) or not (0 <= idx < len(after)):
         return ('C09.add', f'returned-index|{op[1]}', 'index of the added rule', repr(idx))
@@ -360,6 +361,10 @@ def step(res, hist, op, L, tier):
         with guard.watchdog(20):
             s, _ = build(hist)
             before = observe(s)
+            inherited = {(c, g) for c, g, _e, _o in invariant(Result(0), s, case)}
+            rp0 = reparse_ok(Result(0), s)
+            if rp0:
+                inherited.add((rp0[0], rp0[1]))
             removed = None
             if op[0] in ('del', 'delr'):
                 try:
@@ -394,10 +399,16 @@ def step(res, hist, op, L, tier):
                 res.violation('C09.parents', f'removed-rule-still-attached|{op[0]}|{removed.typeString}', case, None,
                               [repr(removed.parentStyleSheet), repr(removed.parentRule)], size=size)
     for clause, sig, exp, obs in invariant(res, s, case):
+        if (clause, sig) in inherited:
+            res.counters['violations_inherited_from_source_state'] += 1
+            continue
         res.violation(clause, f'{sig}|after={op[0]}:{_opkind(op)}|{out[0]}', case, exp, obs, size=size)
     rp = reparse_ok(res, s)
     if rp:
-        res.violation(rp[0], f'{rp[1]}|after={op[0]}:{_opkind(op)}', case, rp[2], rp[3], size=size)
+        if (rp[0], rp[1]) in inherited:
+            res.counters['violations_inherited_from_source_state'] += 1
+        else:
+            res.violation(rp[0], f'{rp[1]}|after={op[0]}:{_opkind(op)}', case, rp[2], rp[3], size=size)
     if op[0] == 'add':
         bad = check_add(res, before[0], s, op, out)
         if bad:
